@@ -73,11 +73,14 @@ def negotiation_interventions(ctx):
                                            UserIdentityNegotiation)
     V = "1.2.840.10008.1.1"
 
-    def boom(event):
-        raise RuntimeError("intervention handler failure")
-
     out = []
-    for name, events, expect in (("ext_neg", [evt.EVT_ASYNC_OPS, evt.EVT_SOP_COMMON, evt.EVT_SOP_EXTENDED], "established"), ("user_id", [evt.EVT_USER_ID], "rejected")):
+    # what the handler raises: ordinary failures of user code (a comparison of None with bytes is a TypeError, a missing key a
+    # KeyError ...) - whatever its class, an exception is not a verdict
+    kinds = (RuntimeError, TypeError, ValueError, KeyError, AttributeError, OSError)
+    for exc_class, (name, events, expect) in [(k, c) for k in kinds for c in (("ext_neg", [evt.EVT_ASYNC_OPS, evt.EVT_SOP_COMMON, evt.EVT_SOP_EXTENDED], "established"),
+                                                                                     ("user_id", [evt.EVT_USER_ID], "rejected"))]:
+        def boom(event, exc_class=exc_class):
+            raise exc_class("intervention handler failure")
         ae = AE("ACCEPTOR")
         ae.add_supported_context(V)
         ae.acse_timeout = ae.network_timeout = 2
@@ -101,7 +104,7 @@ def negotiation_interventions(ctx):
             if assoc.is_established:
                 echo = int(assoc.send_c_echo().Status)
                 assoc.release()
-            out.append({"case": name, "expect": expect, "got": got, "items": items, "echo": echo})
+            out.append({"case": name, "expect": expect, "got": got, "items": items, "echo": echo, "raises": exc_class.__name__})
         finally:
             srv.shutdown()
     return out
@@ -234,10 +237,10 @@ def run(ctx: Ctx) -> int:
                           f"{o['final_status']:#06x} (documented: 0xC311 / 0xC411); peer log {o.get('peer_log')}", {"svc": o["svc"], "k": o["k"]})
     for n in negotiation_interventions(ctx):
         ctx.traces += 1
-        ctx.case(("intervention", n["case"]), nontrivial=True)
+        ctx.case(("intervention", n["case"], n["raises"]), nontrivial=True)
         bad = n["got"] != n["expect"] or (n["case"] == "ext_neg" and (n["echo"] != 0 or any("SOPClass" in i for i in n["items"])))
         if bad:
-            ctx.violation({"clause": "C26_InterventionContained", "svc": n["case"], "why": n["got"]}, f"C26_InterventionContained: raising negotiation handlers ({n['case']}): expected {n['expect']}, got {n}", n)
+            ctx.violation({"clause": "C26_InterventionContained", "svc": n["case"], "why": n["got"], "raises": n["raises"]}, f"C26_InterventionContained: negotiation handlers raising {n['raises']} ({n['case']}): expected {n['expect']}, got {n}", n)
     ctx.sample({"scenario": obs[0]["sc"], "raises": obs[0]["raises"], "reference": obs[0]["ref"]})
     ctx.assume("scenarios without second-thread actions and without injected delays, so that a quiet run is its own reference (checked by running it twice)",
                "handlers are bound on all 17 notification events of both sides; DIMSE intervention reactions are judged by Trace_Scp (C20/C21 predicates)")
